@@ -63,7 +63,9 @@ T parsePlugin(const Json::Value& plugin) {
     const auto& value = json_args[key];
     // Value has to be a string, number, or bool
     if (!value.isString() && !value.isNumeric() && !value.isBool()) {
-      return ret;
+      // invalid plugin: dropping this and the remaining arguments silently
+      // would run the plugin with other arguments than configured
+      return {};
     }
     ret.args[key] = value.asString();
   }
